@@ -698,6 +698,8 @@ class Intrinsics:
         return simp(z3.And(rs)) if rs else True
 
     def s_cls_name(self, P, v):
+        if isinstance(v, containers.SymKey):   # containers
+            return v.kname
         if isinstance(v, SObj):
             return v.cls.name
         if isinstance(v, (EnumV, FlagV)):
